@@ -48,7 +48,8 @@ class Untranslatable(Exception):
 TOK = re.compile(r"\s*(0[xX][0-9a-fA-F]+|\d+|[A-Za-z_]\w*|<<=|>>=|\+=|-=|&=|\|=|\^=|\+\+|--|->|::|>>|<<|<=|>=|==|!=|&&|\|\||"
                  r"[-+&|^~?:=()\[\],;<>*{}%/!.])")
 TYPES = {"UInt32": "UInt32", "unsigned": "UInt32", "uint32": "UInt32", "UInt64": "UInt64", "uint64": "UInt64",
-         "Byte": "UInt8", "byte": "UInt8", "usize": "USize", "CSha256": "Sha", "Sha256": "Sha"}
+         "Byte": "UInt8", "byte": "UInt8", "usize": "USize", "CSha256": "Sha", "Sha256": "Sha", "int": "Int"}
+COUNTER_TYPES = ("Int", "UInt32")   # declared types accepted for the counter of a constant-bound `for` loop
 ASGOPS = ("=", "+=", "-=", "&=", "|=", "^=", "<<=", ">>=")
 
 
@@ -65,8 +66,9 @@ def tokenize(s):
 
 
 class Parser:
-    def __init__(self, toks):
+    def __init__(self, toks, consts=None):
         self.t, self.p = toks, 0
+        self.consts = consts or {}      # named integral constants usable as array sizes (`blockSize`, `digestSize`)
 
     def peek(self, k=0):
         return self.t[self.p + k] if self.p + k < len(self.t) else None
@@ -112,7 +114,13 @@ class Parser:
         if t == "for":
             self.eat()
             self.eat("(")
-            init = None if self.peek() == ";" else self.assign()
+            if self.peek() in TYPES and re.match(r"[A-Za-z_]\w*$", self.peek(1) or "") and self.peek(2) == "=":
+                # `for (int i = 0; …)`: the counter is declared by the loop
+                if TYPES[self.eat()] not in COUNTER_TYPES:
+                    raise Untranslatable("type of a loop counter declared in the for statement")
+                init = self.assign()
+            else:
+                init = None if self.peek() == ";" else self.assign()
             self.eat(";")
             cond = None if self.peek() == ";" else self.assign()
             self.eat(";")
@@ -164,7 +172,7 @@ class Parser:
             n = None
             if self.peek() == "[":
                 self.eat()
-                n = int(self.eat(), 0)
+                n = self.array_size()
                 self.eat("]")
             init = None
             if self.peek() == "=":
@@ -177,6 +185,14 @@ class Parser:
             break
         self.eat(";")
         return items[0] if len(items) == 1 else ("block", items)
+
+    def array_size(self):
+        t = self.eat()
+        if re.match(r"0[xX][0-9a-fA-F]+$|\d+$", t):
+            return int(t, 0)
+        if t in self.consts:
+            return self.consts[t]
+        raise Untranslatable(f"array size {t!r} is neither a literal nor a known constant")
 
     # -- expressions
     def assign(self):
@@ -245,6 +261,19 @@ class Parser:
         if t == "*":
             self.eat()
             return ("deref", self.unary())
+        if t in ("++", "--"):
+            self.eat()
+            return ("pre", t, self.unary())
+        if t == "(" and self.peek(1) in TYPES and self.peek(2) == "(" and self.peek(3) == "&" and self.peek(4) == ")" and self.peek(5) == "[":
+            # `(byte (&)[N])expr`: the object seen as an array of N elements
+            self.eat()
+            ty = self.eat()
+            for x in ("(", "&", ")", "["):
+                self.eat(x)
+            n = self.array_size()
+            self.eat("]")
+            self.eat(")")
+            return ("refcast", TYPES[ty], n, self.unary())
         if t == "(" and self.peek(1) in TYPES and self.peek(2) == ")":
             self.eat()
             ty = self.eat()
@@ -304,7 +333,7 @@ class Parser:
             raise Untranslatable(f"unexpected token {t!r}")
         while self.peek() == "::":
             self.eat()
-            t = self.eat()
+            t = ("Memory::" if t == "Memory" else "") + self.eat()
         if self.peek() == "(":
             self.eat()
             args = []
@@ -322,8 +351,8 @@ def parse(body):
     return Parser(tokenize(body)).stmts()
 
 
-def parse_function(body):
-    p = Parser(tokenize(body))
+def parse_function(body, consts=None):
+    p = Parser(tokenize(body), consts)
     items = p.block_items()
     if p.peek() is not None:
         raise Untranslatable(f"trailing token {p.peek()!r} in function body")
@@ -1014,8 +1043,14 @@ class BodyGen:
     object (`p : Nstd.Sha.Sha`, ghost flag in `p.ok`), the function's local scalars/arrays and (finalize) the bytes
     written through the output pointer (`out`)"""
 
-    def __init__(self, fname, items, obj, in_stream=None, out_ref=None):
+    def __init__(self, fname, items, obj, in_stream=None, out_ref=None, streams=None, consts=None, uninit_params=False,
+                 segmented=False):
         self.fname, self.items, self.obj, self.in_stream, self.out_ref = fname, items, obj, in_stream, out_ref
+        self.streams = dict(streams or {})          # input byte ranges handed over whole: pointer parameter -> its size parameter
+        self.sizes = {v: k for k, v in self.streams.items()}
+        self.consts = dict(consts or {})            # `static const usize` members of the class: name -> value
+        self.uninit_params = uninit_params          # the initial content of local arrays is a parameter of the Lean function
+        self.segmented = segmented                  # straight-line code between top-level loops becomes `<f>_seg<n>`
         self.S = f"{fname}_S"
         self.counters = for_counters(items, set())
         self.scalars, self.arrays, self.out_ptr, self.local_obj, self.out_direct = {}, {}, None, False, False
@@ -1058,7 +1093,7 @@ class BodyGen:
                 if r not in seen:
                     seen.append(r)
             be.reads = []
-            self.set_p(be, "ok", " && ".join([f"{be.st}.p.ok"] + [f"Sha256.inb {a} {i}" for a, i in seen]))
+            self.set_p(be, "ok", " && ".join([f"{be.st}.p.ok"] + [(f"Sha256.inb {r[0]} {r[1]}" if len(r) == 2 else r[0]) for r in seen]))
 
     def finish_stmt(self, be):
         self.flush(be)
@@ -1100,6 +1135,11 @@ class BodyGen:
                 return f"(UInt32.ofNat {v})", "UInt32"
             if v in self.scalars:
                 return f"{be.st}.{v}", self.scalars[v]
+            if v in self.sizes:
+                # the size parameter of an input byte range: the length of the list (a `Nat`; C type `usize`)
+                return f"{self.sizes[v]}.length", "USize"
+            if v in self.consts:
+                return f"Sha256.{v}", "USize"
             raise Untranslatable(f"{self.fname}: variable `{v}` is not a local scalar or a loop counter in scope")
         if k == "mem":
             if n[1] != self.obj or n[2] not in FIELDS or FIELDS[n[2]][0] != "scalar":
@@ -1117,6 +1157,8 @@ class BodyGen:
                 raise Untranslatable(f"{self.fname}: cast to {n[1]}")
             if sty == "lit":
                 return f"({t} : {n[1]})", n[1]
+            if sty not in WIDTH:
+                raise Untranslatable(f"{self.fname}: cast of a {sty} value")
             return (t, sty) if sty == n[1] else (f"({t}).to{n[1]}", n[1])
         if k == "not":
             t, ty = self.ex(n[1], be)
@@ -1128,7 +1170,17 @@ class BodyGen:
             r, rt = self.ex(n[3], be)
             ty = self.unify(lt, rt, n[1])
             if ty == "UInt8":
+                # both operands are promoted to `int`; for & | ^ of two values in 0..255 the result is again in 0..255 and is
+                # the bytewise operation, whatever it is converted to afterwards
+                if n[1] in ("&", "|", "^") and all(x[0] != "num" or 0 <= x[1] < 256 for x in (n[2], n[3])):
+                    return f"({l} {ARITH[n[1]]} {r})", "UInt8"
                 raise Untranslatable(f"{self.fname}: arithmetic on byte operands (integer promotion is not translated)")
+            if ty == "USize":
+                # `usize` values are natural numbers here; a subtraction that would wrap clears the ghost flag instead
+                if n[1] != "-":
+                    raise Untranslatable(f"{self.fname}: operator {n[1]} on usize operands")
+                be.reads.append((f"decide ({r} ≤ {l})",))
+                return f"({l} - {r})", "USize"
             return f"({l} {ARITH[n[1]]} {r})", ty
         if k == "bin" and n[1] in ("<<", ">>"):
             l, lt = self.ex(n[2], be)
@@ -1156,6 +1208,9 @@ class BodyGen:
             if lt == "lit" and rt == "lit":
                 raise Untranslatable(f"{self.fname}: comparison of two literals")
             return f"{l} {CMP[n[1]]} {r}"
+        if n[0] == "var" and (n[1] in self.sizes or n[1] in self.consts):
+            t, _ = self.ex(n, be)
+            return f"{t} ≠ 0"
         raise Untranslatable(f"{self.fname}: condition is not a comparison")
 
     # -- statements
@@ -1230,8 +1285,81 @@ class BodyGen:
             new = be.fresh("st")
             be.lines.append(f"let {new} : {self.S} := {{ {be.st} with p := {{ {be.st}.p with state := {r}.1, ok := {be.st}.p.ok && {r}.2 }} }}")
             be.st = new
+        elif name == "Memory::zero" and len(args) == 2:
+            # documented behaviour of memset(buffer, 0, size) on a local byte array: checked block write
+            arr, off = self.byte_target(args[0], be)
+            cnt, cty = self.ex(args[1], be)
+            if cty not in ("lit", "USize"):
+                raise Untranslatable(f"{self.fname}: size argument of Memory::zero of type {cty}")
+            self.flush(be)
+            self.set_local(be, arr, f"Nstd.Sha.zeroAt {be.st}.{arr} {off} {cnt}")
+        elif name == "Memory::copy" and len(args) == 3:
+            # documented behaviour of memcpy(dest, src, count): dest a local byte array, src an input byte range
+            arr, off = self.byte_target(args[0], be)
+            if args[1][0] != "var" or args[1][1] not in self.streams:
+                raise Untranslatable(f"{self.fname}: source of Memory::copy is not an input byte range")
+            src = args[1][1]
+            cnt, cty = self.ex(args[2], be)
+            if cty not in ("lit", "USize"):
+                raise Untranslatable(f"{self.fname}: size argument of Memory::copy of type {cty}")
+            be.reads.append((f"decide ({cnt} ≤ {src}.length)",))
+            self.flush(be)
+            self.set_local(be, arr, f"Nstd.Sha.storeAt {be.st}.{arr} {off} ({src}.take {cnt})")
         else:
             raise Untranslatable(f"{self.fname}: call of {name} is not translated")
+
+    def byte_target(self, n, be):
+        """a destination pointer into a local byte array: `A` or `A + offset` -> (array, offset term : Nat)"""
+        if n[0] == "var" and self.arrays.get(n[1], ("", 0))[0] == "UInt8":
+            return n[1], "0"
+        if n[0] == "bin" and n[1] == "+" and n[2][0] == "var" and self.arrays.get(n[2][1], ("", 0))[0] == "UInt8":
+            t, ty = self.ex(n[3], be)
+            if ty not in ("lit", "USize"):
+                raise Untranslatable(f"{self.fname}: pointer offset of type {ty}")
+            return n[2][1], t
+        raise Untranslatable(f"{self.fname}: destination pointer is not (an offset into) a local byte array")
+
+    def method_call(self, e, be):
+        """`obj.update(range, size)` / `obj.finalize(dest)` on the local object"""
+        new = be.fresh("st")
+        a = e[3]
+        if e[2] == "update" and len(a) == 2 and a[0][0] == "var":
+            src = a[0][1]
+            if self.in_stream and a == [("var", self.in_stream[0]), ("var", self.in_stream[1])]:
+                be.lines.append(f"let {new} : {self.S} := {{ {be.st} with p := update {be.st}.p {src} }}")
+            elif src in self.streams and a[1] == ("var", self.streams[src]):
+                be.lines.append(f"let {new} : {self.S} := {{ {be.st} with p := update {be.st}.p {src} }}")
+            elif self.arrays.get(src, ("", 0))[0] == "UInt8":
+                cnt, cty = self.ex(a[1], be)
+                if cty not in ("lit", "USize") or be.reads:
+                    raise Untranslatable(f"{self.fname}: size argument of update")
+                be.reads.append((f"decide ({cnt} ≤ {be.st}.{src}.length)",))      # the range read is inside the array
+                self.flush(be)
+                new = be.fresh("st")
+                be.lines.append(f"let {new} : {self.S} := {{ {be.st} with p := update {be.st}.p ({be.st}.{src}.take {cnt}) }}")
+            else:
+                raise Untranslatable(f"{self.fname}: argument of update is not an input byte range or a local byte array")
+        elif e[2] == "finalize" and len(a) == 1:
+            r = be.fresh("r")
+            d = a[0]
+            if d[0] == "refcast":
+                if d[1] != "UInt8" or d[2] != self.consts.get("digestSize"):
+                    raise Untranslatable(f"{self.fname}: reference cast that is not to byte (&)[digestSize]")
+                d = d[3]
+            if self.out_ref and d == ("var", self.out_ref) and a[0][0] == "var":
+                self.out_direct = True
+                be.lines.append(f"let {r} := finalize {be.st}.p")
+                be.lines.append(f"let {new} : {self.S} := {{ {be.st} with p := {r}.2, out := {be.st}.out ++ {r}.1 }}")
+            elif d[0] == "var" and self.arrays.get(d[1], ("", 0))[0] == "UInt8" and \
+                    (a[0][0] == "refcast" or self.arrays[d[1]][1] == self.consts.get("digestSize")):
+                # the digest goes to the start of a local byte array (checked block write)
+                be.lines.append(f"let {r} := finalize {be.st}.p")
+                be.lines.append(f"let {new} : {self.S} := {{ {be.st} with p := {r}.2, {d[1]} := Nstd.Sha.storeAt {be.st}.{d[1]} 0 {r}.1 }}")
+            else:
+                raise Untranslatable(f"{self.fname}: destination of finalize is not translated")
+        else:
+            raise Untranslatable(f"{self.fname}: method call {e[1]}.{e[2]}(…) is not translated")
+        be.st = new
 
     def stmt(self, s, be):
         k = s[0]
@@ -1250,17 +1378,7 @@ class BodyGen:
                 self.call(e, be)
             elif e[0] == "mcall" and self.local_obj and e[1] == self.obj:
                 self.flush(be)
-                new = be.fresh("st")
-                if e[2] == "update" and self.in_stream and e[3] == [("var", self.in_stream[0]), ("var", self.in_stream[1])]:
-                    be.lines.append(f"let {new} : {self.S} := {{ {be.st} with p := update {be.st}.p {self.in_stream[0]} }}")
-                elif e[2] == "finalize" and self.out_ref and e[3] == [("var", self.out_ref)]:
-                    self.out_direct = True
-                    r = be.fresh("r")
-                    be.lines.append(f"let {r} := finalize {be.st}.p")
-                    be.lines.append(f"let {new} : {self.S} := {{ {be.st} with p := {r}.2, out := {be.st}.out ++ {r}.1 }}")
-                else:
-                    raise Untranslatable(f"{self.fname}: method call {e[1]}.{e[2]}(…) is not translated")
-                be.st = new
+                self.method_call(e, be)
             elif e[0] == "post" and e[1] == "--" and self.in_stream and e[2] == ("var", self.in_stream[1]) and be.head:
                 be.size_dec += 1
             elif e[0] == "post" and e[1] == "++":
@@ -1296,7 +1414,7 @@ class BodyGen:
         init, cond, step, body = s[1:]
         ok = (init and init[0] == "asg" and init[1] == "=" and init[2][0] == "var" and init[3][0] == "num"
               and cond and cond[0] == "bin" and cond[1] == "<" and cond[2] == init[2] and cond[3][0] == "num"
-              and step and step[0] == "post" and step[1] == "++" and step[2] == init[2])
+              and step and step[0] in ("post", "pre") and step[1] == "++" and step[2] == init[2])
         if not ok:
             raise Untranslatable(f"{self.fname}: only `for (v = const; v < const; v++)` loops are translated")
         v, start, bound = init[2][1], init[3][1], cond[3][1]
@@ -1360,15 +1478,39 @@ class BodyGen:
         be.lines.append(f"let {new} := {name}{args} {FUEL} {be.st}")
         be.st = new
 
-    def run(self, doc, result, params):
+    def run(self, doc, result, params, seg_sig="", seg_args=""):
         be = BE(self.counter)
+        seg = {"from": 0, "in": "st0", "n": 0}
+
+        def close_segment():
+            """straight-line code of the top level between two loops becomes a definition of its own (`<f>_seg<n>`)"""
+            self.flush(be)
+            lines = be.lines[seg["from"]:]
+            if lines:
+                seg["n"] += 1
+                name = f"{self.fname}_seg{seg['n']}"
+                self.defs.append(f"/-- straight-line part {seg['n']} of `{self.fname}` (the statements between two top-level loops) -/\n"
+                                 f"def {name}{seg_sig} ({seg['in']} : {self.S}) : {self.S} :=\n" + "".join(f"  {l}\n" for l in lines) + f"  {be.st}\n\n")
+                new = be.fresh("st")
+                be.lines[seg["from"]:] = [f"let {new} := {name}{seg_args} {seg['in']}"]
+                be.st = new
+            seg["from"], seg["in"] = len(be.lines), be.st
+
         for x in self.items:
+            loop = self.segmented and x[0] in ("for", "while")
+            if loop:
+                close_segment()
             self.stmt(x, be)
+            if loop:
+                seg["from"], seg["in"] = len(be.lines), be.st
         self.flush(be)
+        if self.segmented:
+            close_segment()
         has_out = bool(self.out_ptr) or self.out_direct
         fields = [f"  p : {SHA}\n"] + [f"  {a} : List {ty}\n" for a, (ty, n) in self.arrays.items()] + \
                  [f"  {v} : {ty}\n" for v, ty in self.scalars.items()] + (["  out : List UInt8\n"] if has_out else [])
-        init = ["p := Nstd.Sha.init" if self.local_obj else "p := p"] + [f"{a} := List.replicate {n} 0" for a, (ty, n) in self.arrays.items()] + \
+        init = ["p := Nstd.Sha.init" if self.local_obj else "p := p"] + \
+               [(f"{a} := {a}0" if self.uninit_params else f"{a} := List.replicate {n} 0") for a, (ty, n) in self.arrays.items()] + \
                [f"{v} := 0" for v in self.scalars] + (["out := []"] if has_out else [])
         head = (f"/-- the object, the local variables" + (" and the bytes written through the output pointer/reference" if (self.out_ptr or self.out_direct) else "") +
                 f" of `{self.fname}` -/\nstructure {self.S} where\n" + "".join(fields) + "\n")
@@ -1381,16 +1523,21 @@ FALLBACK = {"reset": (f"(p : {SHA}) : {SHA}", "Nstd.Sha.reset p"),
             "WriteByteBlock": (f"(p : {SHA}) : {SHA}", "Nstd.Sha.writeByteBlock p"),
             "update": (f"(p : {SHA}) (data : List UInt8) : {SHA}", "Nstd.Sha.update p data"),
             "finalize": (f"(p : {SHA}) : List UInt8 × {SHA}", "Nstd.Sha.finalize p"),
-            "hash": ("(data : List UInt8) : List UInt8", "Nstd.Sha.hash data")}
+            "hash": ("(data : List UInt8) : List UInt8", "Nstd.Sha.hash data"),
+            "hmac": ("(hashKey0 oKeyPad0 iKeyPad0 hash0 key message : List UInt8) : List UInt8 × Bool", "Nstd.Sha.hmac key message")}
+BODIES = ("reset", "WriteByteBlock", "update", "finalize", "hash", "hmac")
 PROOFS = VERIF / "lean" / "Nstd" / "Sha" / "body_proofs"
 FALLBACK_PROOF = {"reset": "theorem gen_reset_eq (p : Sha) (hs : p.state.length = 8) : Sha256Body.reset p = reset p := rfl\n",
                   "WriteByteBlock": "theorem WriteByteBlock_eq (p : Sha) : Sha256Body.WriteByteBlock p = writeByteBlock p := rfl\n",
                   "update": "theorem gen_update_eq (p : Sha) (data : List UInt8) : Sha256Body.update p data = update p data := rfl\n",
                   "finalize": "theorem gen_finalize_eq (p : Sha) : Sha256Body.finalize p = finalize p := rfl\n",
-                  "hash": "theorem gen_hash_eq (data : List UInt8) : Sha256Body.hash data = hash data := rfl\n"}
+                  "hash": "theorem gen_hash_eq (data : List UInt8) : Sha256Body.hash data = hash data := rfl\n",
+                  "hmac": ("theorem gen_hmac_spec (hashKey0 oKeyPad0 iKeyPad0 hash0 key msg : List UInt8) (h1 : hashKey0.length = 64) (h2 : oKeyPad0.length = 64)\n"
+                           "    (h3 : iKeyPad0.length = 64) (h4 : hash0.length = 32) (hk : key.length < 2 ^ 61) (hm : msg.length + 64 < 2 ^ 61) :\n"
+                           "    Sha256Body.hmac hashKey0 oKeyPad0 iKeyPad0 hash0 key msg = (Spec.hmacSha256 key msg, true) := hmac_eq key msg hk hm\n")}
 
 
-def body_functions(raw):
+def body_functions(raw, hdr):
     """(Lean text of WriteByteBlock, update, finalize translated from the directives-only view of the sources,
     {function: None | reason why its body was NOT translated}).  A body outside the translated C subset is not an
     error: that function falls back to the hand-written model function (its tie to the sources is then the
@@ -1458,11 +1605,35 @@ def body_functions(raw):
         return g.run(f"/-- `Sha256::hash({squeeze(params)})`: `{squeeze(body)}`; the local object is constructed by `Sha256()` = `init` -/\n",
                      "{st}.out", f"({mp.group(1)} : List UInt8) : List UInt8")
 
+    def hm():
+        params, body = function_text(raw, r"static\s+void\s+hmac\s*\(([^{]*)\)\s*\{", "Sha256::hmac")
+        mp = re.match(r"\s*const\s+byte\s*\*\s*(\w+)\s*,\s*usize\s+(\w+)\s*,\s*const\s+byte\s*\*\s*(\w+)\s*,\s*usize\s+(\w+)\s*,"
+                      r"\s*byte\s*\(\s*&\s*(\w+)\s*\)\s*\[\s*digestSize\s*\]\s*$", params)
+        if not mp:
+            raise Untranslatable(f"hmac: parameter list `{params}`")
+        key, ksz, msg, msz, res = mp.groups()
+        consts = {"blockSize": hdr["blockSize"], "digestSize": hdr["digestSize"]}
+        g = BodyGen("hmac", parse_function(body, consts), None, out_ref=res, streams={key: ksz, msg: msz}, consts=consts,
+                    uninit_params=True, segmented=True)
+        if not g.local_obj:
+            raise Untranslatable("hmac: no local `Sha256` object")
+        want = {"hashKey": ("UInt8", hdr["blockSize"]), "oKeyPad": ("UInt8", hdr["blockSize"]), "iKeyPad": ("UInt8", hdr["blockSize"]),
+                "hash": ("UInt8", hdr["digestSize"])}
+        if g.arrays != want or g.scalars or (key, msg) != ("key", "message"):
+            # the signature of the Lean function (one parameter per uninitialised local array) is fixed by the proof
+            raise Untranslatable(f"hmac: local arrays {g.arrays} / scalars {g.scalars} / parameters {key}, {msg}; expected {want}, none, key, message")
+        return g.run(f"/-- `Sha256::hmac({squeeze(params)})`: `{squeeze(body)}`.\nThe local object is constructed by `Sha256()` = `init`; the local byte arrays are "
+                     f"uninitialised in C++: their initial contents are the parameters `hashKey0 oKeyPad0 iKeyPad0 hash0`; `Memory::zero`/`Memory::copy` are "
+                     f"`zeroAt`/`storeAt` (checked block writes); result: the bytes written through `{res}` and the ghost flag (no array read / block read out of range, no `usize` subtraction wrapped) -/\n",
+                     "({st}.out, {st}.p.ok)", f"(hashKey0 oKeyPad0 iKeyPad0 hash0 : List UInt8) ({key} {msg} : List UInt8) : List UInt8 × Bool",
+                     seg_sig=f" ({key} {msg} : List UInt8)", seg_args=f" {key} {msg}")
+
     one("reset", rst)
     one("WriteByteBlock", wbb)
     one("update", upd)
     one("finalize", fin)
     one("hash", hsh)
+    one("hmac", hm)
     return "".join(out), status
 
 
@@ -1474,14 +1645,14 @@ def body_proofs(ns, status):
          f"import Nstd.Generated.{ns}Body\nimport Nstd.Sha.LemmasBodyAux\n"
          "namespace Nstd.Sha\nopen Nstd.Generated Nstd.Generated.Sha256\nset_option linter.unusedSimpArgs false\n\n"
          "theorem transform_call_eq (state data : List UInt32) : Sha256.Transform_call state data = transform state data := rfl\n\n")
-    for name in ("reset", "WriteByteBlock", "update", "finalize", "hash"):
+    for name in BODIES:
         if status[name] is None:
             t += (PROOFS / f"{name}.lean.in").read_text() + "\n"
         else:
             t += f"/-- `{name}` was not translated this run: {status[name].replace('-/', '- /')} -/\n" + FALLBACK_PROOF[name] + "\n"
     t += ("/-- which bodies were translated this run (`true`) and which fell back to the model function -/\n"
           "def translatedBodies : List (String × Bool) := [" +
-          ", ".join(f'("{n}", {"true" if status[n] is None else "false"})' for n in ("reset", "WriteByteBlock", "update", "finalize", "hash")) + "]\n\n")
+          ", ".join(f'("{n}", {"true" if status[n] is None else "false"})' for n in BODIES) + "]\n\n")
     return t + "end Nstd.Sha\n"
 
 
@@ -1644,7 +1815,7 @@ def generate(repo, defines=(), ns="Sha256", suffix="", want_body=False):
                 "-- Sha256::Private::WriteByteBlock, Sha256::update, Sha256::finalize.  Do not edit.\n"
                 "import Nstd.Sha.Model\nset_option linter.unusedVariables false\n"
                 f"namespace Nstd.Generated.{ns}Body\nopen Nstd.Generated.{ns} (Transform_call)\n\n")
-        btext, status = body_functions(raw)
+        btext, status = body_functions(raw, hdr)
         body += btext + f"end Nstd.Generated.{ns}Body\n"
         return "".join(out), body, body_proofs(ns, status), status
     return "".join(out)
